@@ -216,6 +216,28 @@ case('nullable_obj', {'N': {'type': 'object', 'required': ['a'],
                             'properties': {'a': {'type': ['integer', 'null']}, 'b': {'oneOf': [{'$ref': '#/definitions/I'}, {'type': 'null'}]}}},
                       'I': {'type': 'object', 'required': ['k'], 'properties': {'k': {'type': 'boolean'}}}}, 'N', 'struct')
 
+# property-name shapes x property states x leaf types (names that need a serde
+# rename; intrinsic vs non-intrinsic defaults; nullable with and without default)
+RENAMED = {'type': 'object', 'required': ['user-id'],
+           'properties': {'user-id': {'type': 'string'}, 'isActive': {'type': 'boolean', 'default': False},
+                          'retry-count': {'type': 'integer', 'default': 0}, 'display-name': {'type': 'string', 'default': ''},
+                          'maxSize': {'type': 'integer', 'format': 'uint8'}, 'min-level': {'type': 'integer', 'default': 3}}}
+case('renamed', {'Account': RENAMED}, 'Account', 'struct')
+case('renamed_closed', {'Account': dict(RENAMED, additionalProperties=False)}, 'Account', 'struct')
+case('renamed_b', {'Account': RENAMED}, 'Account', 'struct', settings={'builder': True})
+NULLDEF = {'type': 'object', 'required': ['name'],
+           'properties': {'name': {'type': 'string'}, 'retries': {'type': ['integer', 'null'], 'default': 0},
+                          'verbose': {'type': ['boolean', 'null'], 'default': False}, 'prefix': {'type': ['string', 'null'], 'default': ''},
+                          'backoff': {'type': ['integer', 'null'], 'default': 7}}}
+case('nulldef', {'RetryPolicy': NULLDEF}, 'RetryPolicy', 'struct')
+case('nulldef_b', {'RetryPolicy': NULLDEF}, 'RetryPolicy', 'struct', settings={'builder': True})
+for tname, tsch, d0, d1 in [('bool', {'type': 'boolean'}, False, True), ('int', {'type': 'integer', 'format': 'int16'}, 0, -5), ('str', {'type': 'string'}, '', 'x y')]:
+    props = {'a-req': dict(tsch), 'bOpt': dict(tsch), 'c-def0': dict(tsch, default=d0), 'dDef': dict(tsch, default=d1),
+             'e-null': dict(tsch, type=[tsch['type'], 'null']), 'fNullDef': dict(tsch, type=[tsch['type'], 'null'], default=d1)}
+    g = {'type': 'object', 'required': ['a-req'], 'properties': props}
+    case(f'grid_{tname}', {'G': g}, 'G', 'struct')
+    case(f'grid_{tname}_b', {'G': g}, 'G', 'struct', settings={'builder': True})
+
 # C14: the same schema under other settings must behave the same on the wire
 C14_VARIANTS = {
     'builder': {'builder': True},
@@ -341,7 +363,10 @@ def emit(index):
             P = e2gen.Plan
             plans = [P(name='p', descr='all members present, strings of one 1-byte scalar, arrays of 1'),
                      P(name='p2', widths=(2, 1), array_len=2, compound_null=True, pick=1, descr='all members present, strings of a 2-byte and a 1-byte scalar, arrays of 2, compound nullables null'),
-                     P(name='p0', widths=(), array_len=0, present=set(), descr='no member present, empty strings and arrays')]
+                     P(name='n0', widths=(), array_len=0, present=set(), descr='no member present, empty strings and arrays')]
+            dry = e2gen.build_prelude(root, P())
+            req = {i for i, m in enumerate(dry.members) if m['prop']['required']}
+            plans.insert(2, P(name='p0', widths=(), array_len=0, present=req, pick=3, descr='only the required members present (the minimal valid shape), empty strings and arrays'))
             for k in range(nm):
                 plans.append(P(name=f'm{k}', present=set(range(nm)) - {k}, descr=f'member #{k} (build order) absent, the others present'))
                 plans.append(P(name=f'o{k}', present={k}, widths=(3,), pick=2 + k, descr=f'only member #{k} present; strings of one 3-byte scalar'))
@@ -349,7 +374,7 @@ def emit(index):
             for pl in plans:
                 fn, em = e2gen.fn_instance(f'inst_{cid}_{pl.name}', T, root, pl)
                 gen_fns.append(fn)
-                tier = 'quick' if pl.name in ('p', 'p2', 'p0') or pl.name.startswith('m') else 'thorough'
+                tier = 'quick' if pl.name in ('p', 'p2', 'p0', 'n0') or pl.name.startswith('m') else 'thorough'
                 h(f'e2_inst_{cid}_{pl.name}', f'|s| gen::inst_{cid}_{pl.name}(s)', ['C02', 'C05'],
                   f'{cid}: schema-shaped instance ({pl.descr}), every leaf symbolic: valid => accepted; represented-constraint violation => rejected', tier)
                 if not c['settings']:
@@ -382,7 +407,7 @@ def emit(index):
                         skipped[vid] = vm.get('error', 'missing')
                         continue
                     mods.append(vid)
-                    for pl in plans[:3]:
+                    for pl in plans[:4]:
                         fn, em = e2gen.fn_same_behaviour(f'eq_{cid}_{vn}_{pl.name}', T, f'{vid}::{vm["root_type"]}', root, pl)
                         gen_fns.append(fn)
                         h(f'e2_eq_{cid}_{vn}_{pl.name}', f'|s| gen::eq_{cid}_{vn}_{pl.name}(s)', ['C14'],
